@@ -82,6 +82,22 @@ CLAIMED = {
             "signatures and struct layouts (ada_url_components field by field with ada::url_components).",
             "must-dataflow of engagement facts + slot-consistency and type-agreement queries over resolved AST facts",
             "DESIGN.md §5 C17", "what remains is the behaviour of the wrapped C++ operations (other properties)"),
+    "C08": ("other",
+            "Decides the provenance of can_parse's verdict: every `true` comes from the size-checked parser or from "
+            "the one argued exception; validation-only early returns sit only in states from which no failing construct "
+            "is reachable in the full parser; base handled behind is_valid; the fast validator's accepted host bytes and "
+            "its IPv4 deferral heuristic are computed symbolically and compared with the forbidden-domain table and "
+            "is_ipv4's early-out. One genuine defect (F3, the 3x shortcut) is reported as a known finding. Equivalence "
+            "of the scanner with the parser on all strings is not decided.",
+            "return-provenance classification + state-graph reachability + must-dataflow + byte-domain abstract interpretation",
+            "DESIGN.md §5 C08", "partial"),
+    "C10": ("other",
+            "Decides that the host kind is written together with the host on every path of every public entry "
+            "(parser, fast path, host setters, parse_host; both URL types) by a typestate fixpoint with callee summaries, "
+            "and that the IPv6 serializer keeps the first longest zero run. Found and fixed a genuine defect (host_type "
+            "never reset / not inherited). IPv4/IPv6 arithmetic over all values is not decided.",
+            "typestate dataflow (pairing of two effects) with interprocedural summaries + comparison-form rule",
+            "DESIGN.md §5 C10", "partial: pairing, not the value of the kind"),
     "C09": ("other",
             "Must-pass-through property decided on every CFG path: each success-capable exit of the parser (both URL "
             "types) and each success exit of the 24 setter bodies is behind the 'fits' edge of a size-vs-limit "
@@ -107,7 +123,7 @@ NOT_APPLICABLE = {
            "no table, ordering, pairing or ownership fact whose breakage is necessary for a violation",
 }
 
-PENDING = {'C02': 'check not built yet in this round (see DESIGN.md §11 build order); not claimed until it is', 'C04': 'check not built yet in this round (see DESIGN.md §11 build order); not claimed until it is', 'C08': 'check not built yet in this round (see DESIGN.md §11 build order); not claimed until it is', 'C10': 'check not built yet in this round (see DESIGN.md §11 build order); not claimed until it is', 'C18': 'check not built yet in this round (see DESIGN.md §11 build order); not claimed until it is', 'C19': 'check not built yet in this round (see DESIGN.md §11 build order); not claimed until it is'}   # id -> reason, for properties whose check is not built yet
+PENDING = {'C02': 'check not built yet in this round (see DESIGN.md §11 build order); not claimed until it is', 'C04': 'check not built yet in this round (see DESIGN.md §11 build order); not claimed until it is', 'C18': 'check not built yet in this round (see DESIGN.md §11 build order); not claimed until it is', 'C19': 'check not built yet in this round (see DESIGN.md §11 build order); not claimed until it is'}   # id -> reason, for properties whose check is not built yet
 
 
 def main():
